@@ -191,6 +191,13 @@ impl UnixTerminal {
         })
     }
 
+    /// Whether a wake event is waiting in the events queue
+    fn wake_queued(&self) -> bool {
+        self.events_queue
+            .iter()
+            .any(|event| matches!(event, TerminalEvent::Wake))
+    }
+
     /// Close all descriptors free all the resources
     fn dispose(&mut self) -> Result<(), Error> {
         self.frames_drop();
@@ -416,11 +423,11 @@ impl Terminal for UnixTerminal {
                 }
                 None => None,
             };
-            // never sleep while there is an event to deliver
-            let delay = if self.events_queue.is_empty() {
-                delay
-            } else {
+            // never sleep while a wake event waits to be delivered
+            let delay = if self.wake_queued() {
                 Some(Duration::new(0, 0))
+            } else {
+                delay
             };
 
             let tty_write = PollEvent::new(&self.tty).with_writable(!self.write_queue.is_empty());
@@ -526,10 +533,11 @@ impl Terminal for UnixTerminal {
             // indicate that first loop was executed
             first_loop = false;
 
-            // an event is ready and the tty took no output in this round (not writable, or
-            // writable but the write was refused), deliver the event instead of waiting for
-            // the other side to drain the output
-            if !self.events_queue.is_empty() && !sent_some {
+            // output is flushed before events are returned, except for wake requests: when
+            // a wake event is queued and the tty took no output in this round (not writable,
+            // or writable but the write was refused) return instead of waiting for the other
+            // side to drain the output
+            if !sent_some && self.wake_queued() {
                 break;
             }
         }
